@@ -695,13 +695,29 @@ def stage_metamorphic(ctx, ps, ncases):
 
 def run(ctx):
     from abacusnbody.analysis import power_spectrum as ps
+    import time
+    from vcommon import log
+    t0 = time.time()
+    stages = {}
+
+    def done(name):
+        stages[name] = round(time.time() - t0, 1)
     stage_rfftn(ctx)
+    done('rfftn')
     stage_normalize(ctx, ps)
+    done('normalize')
     stage_window(ctx, ps)
+    done('window')
     stage_rawpower(ctx, ps)
+    done('rawpower')
     stage_fieldfft(ctx, ps)
+    done('fieldfft')
     warm_up(ps)
+    done('warm-up')
     stage_metamorphic(ctx, ps, ctx.pick(20, 320))
+    done('metamorphic')
+    ctx.extra['cumulative_stage_seconds'] = stages
+    log('[c13] cumulative stage seconds', stages)
     ctx.extra['bounds'] = dict(RTOL_META=RTOL_META, RTOL_FFT32=RTOL_FFT32, RTOL_FFT64=RTOL_FFT64,
                                RTOL_FFT64_W=RTOL_FFT64_W, ATOL_W=ATOL_W, RTOL_RFFTN=RTOL_RFFTN, RTOL_OFFSET=RTOL_OFFSET)
     ctx.extra['scope'] = ('calc_power: nmesh 4..16 (odd and even), TSC/CIC, compensated, interlaced, lin/log k bins, '
